@@ -4,34 +4,82 @@ set_option linter.unusedSimpArgs false
 set_option linter.unusedVariables false
 namespace MirVerif.PP
 
-theorem unescape_cons_ne (c : Char) (hc : c ≠ '\\') (l : List Char) :
-    unescapeChars (c :: l) = c :: unescapeChars l := by
-  rw [unescapeChars.eq_def]
-  split
-  · rename_i heq; cases heq
-  · rename_i heq; simp at heq; exact absurd heq.1 hc
-  · rename_i heq; simp at heq; obtain ⟨h1, h2⟩ := heq; subst h1 h2; rfl
+def headEscd : List Char → Bool
+  | d :: _ => isEscd d
+  | [] => false
 
-theorem unescape_bs (c : Char) (l : List Char) :
-    unescapeChars ('\\' :: c :: l) = c :: unescapeChars l := by
-  rw [unescapeChars.eq_def]
-  rfl
+theorem headEscd_escape (cs : List Char) : headEscd (escapeChars cs) = headEscd cs := by
+  cases cs with
+  | nil => rfl
+  | cons d ds =>
+    simp only [escapeChars]
+    split
+    · rename_i h; simp [headEscd, isEscd, h]
+    · rename_i h; simp [headEscd, isEscd]
 
-theorem unescape_escape (s : List Char) : unescapeChars (escapeChars s) = s := by
+theorem destrLoop_cons (c : Char) (l : List Char) (h : (c == '\\' && headEscd l) = false) :
+    destrLoop (c :: l) = c :: destrLoop l := by
+  cases l with
+  | nil => simp [destrLoop]
+  | cons d r =>
+    simp only [headEscd] at h
+    simp [destrLoop, h]
+
+theorem destrLoopFixed_cons (c : Char) (l : List Char) (h : (c == '\\') = false) :
+    destrLoopFixed (c :: l) = c :: destrLoopFixed l := by
+  cases l with
+  | nil => simp [destrLoopFixed]
+  | cons d r => simp [destrLoopFixed, h]
+
+theorem destrLoopFixed_escape (s : List Char) : destrLoopFixed (escapeChars s) = s := by
   induction s with
-  | nil => simp [escapeChars, unescapeChars]
+  | nil => simp [escapeChars, destrLoopFixed]
   | cons c cs ih =>
     simp only [escapeChars]
     split
-    · rw [unescape_bs, ih]
     · rename_i h
-      have hc : c ≠ '\\' := by
-        intro hc; subst hc; simp at h
-      rw [unescape_cons_ne c hc, ih]
+      have : isEscd c = true := by simpa [isEscd] using h
+      simp [destrLoopFixed, this, ih]
+    · rename_i h
+      have hc : (c == '\\') = false := by
+        cases hb : (c == '\\') with
+        | false => rfl
+        | true => simp [hb] at h
+      rw [destrLoopFixed_cons c _ hc, ih]
 
-/-- `destringify (stringify s) = s` : the code's string quoting is lossless -/
-theorem stringify_roundtrip' (s : List Char) : destringify (stringify s) = s := by
-  simp [destringify, stringify, List.dropLast_concat, unescape_escape]
+theorem destrLoop_escape (s : List Char) (h : noEscPair s = true) : destrLoop (escapeChars s) = s := by
+  induction s with
+  | nil => simp [escapeChars, destrLoop]
+  | cons c cs ih =>
+    have hcs : noEscPair cs = true := by
+      cases cs with
+      | nil => rfl
+      | cons d ds => simp [noEscPair] at h; exact h.2
+    have hpair : (c == '\\' && headEscd cs) = false := by
+      cases cs with
+      | nil => simp [headEscd]
+      | cons d ds =>
+        simp [noEscPair] at h
+        simp only [headEscd]
+        cases hb : (c == '\\') <;> cases hd : isEscd d <;> simp_all
+    simp only [escapeChars]
+    split
+    · rename_i hsp
+      have hesc : isEscd c = true := by simpa [isEscd] using hsp
+      have h1 : destrLoop ('\\' :: c :: escapeChars cs) = destrLoop (c :: escapeChars cs) := by
+        simp [destrLoop, hesc]
+      rw [h1, destrLoop_cons c _ (by rw [headEscd_escape]; exact hpair), ih hcs]
+    · rw [destrLoop_cons c _ (by rw [headEscd_escape]; exact hpair), ih hcs]
+
+theorem stripQuotes_stringify (s : List Char) : stripQuotesC (stringify s) = escapeChars s := by
+  unfold stringify stripQuotesC
+  cases h : escapeChars s with
+  | nil => simp
+  | cons x xs =>
+    have e : x :: (xs ++ ['"']) = (x :: xs) ++ ['"'] := rfl
+    simp only [List.nil_append, List.cons_append]
+    rw [e, List.getLast?_concat, List.dropLast_concat]
+    simp
 
 /-- one step of rescanning at a painted token: it is copied, never replaced (6.10.3.4p2) -/
 theorem expand_painted (defs : Defs) (dis : List String) (t : Tok) (rest : List Tok)
@@ -72,5 +120,17 @@ theorem expand_disabled (defs : Defs) (dis : List String) (t : Tok) (rest : List
     split
     · rfl
     · rename_i hd'; rw [hd] at hd'; cases hd'
+
+theorem subst_param_cases (raw exp : List (List Tok)) (i : Nat) (w : Ws) :
+    substItems raw exp false [.param i w] = insertArg w (exp.getD i []) ∧
+    substItems raw exp false [.str i w] = [.tok (stringifyArg w (raw.getD i []))] ∧
+    substItems raw exp false [.param i w, .paste, .tok ⟨"x", .none, false⟩] =
+      (if (raw.getD i []).isEmpty then [PItem.placemarker w] else insertArg w (raw.getD i [])) ++
+        [.pasteOp, .tok ⟨"x", .none, false⟩] := by
+  refine ⟨?_, ?_, ?_⟩
+  · simp [substItems, afterArg]
+  · simp [substItems]
+  · simp [substItems, afterArg]
+
 
 end MirVerif.PP
